@@ -1,18 +1,21 @@
-"""C01 — one shared instance per component (wiring family)."""
-import vlib
+"""C01 — one shared instance per component (wiring family: generated Go types run through the real container vs Model/Factory.v)."""
 import wiring
+from wiring import Profile
+
+MANIFEST = {
+    "level": "proof",
+    "text": 'theorems over the factory model: every version held by any holder is the published version of its component and equals the by-name lookup; correspondence compares event log, every field and every lookup of real starts with the model, and the oracle re-checks the property on the observed wiring',
+    "design_ref": "DESIGN.md 5 C01, 4.3, Appendix A/D",
+    "note": "trusted: Coq kernel + vm_compute; hand-written model (Model/Resolve.v, Factory.v, App.v) tied to the code by exact "
+            "comparison of event log, wiring and lookups on generated scenarios; Python generator/Go code generator/wx runtime; "
+            "Go reflect and runtime; user callbacks do not re-enter the factory",
+    "technique": "Rocq proof over the Factory/Resolve model + vm_compute correspondence on generated wiring scenarios",
+}
+
+PROFILES = [(Profile(p_wrap=0.25), 350, 4000), (Profile(p_wrap=0.0, max_types=8, fields=(1, 5), p_cycle_bias=0.8), 250, 3000)]
+
+RULE = 'generated component graphs (by-type, interface, slice, by-name, qualified, func edges; cycles; lazy; optional; wrapping processors); non-trivial = successful start in which some component is held through >= 2 points; distinct = distinct scenario shapes'
 
 
 def run(ctx):
-    static_ok = vlib.static_obligations(ctx)
-    pf = wiring.Profile(p_wrap=0.3, n_procs=(0, 2))
-    n = 600 if ctx.quick() else 3000
-    scns = [wiring.gen_scenario(ctx.rng, i, pf) for i in range(n)]
-    by_id, out, facts = wiring.evaluate(ctx, scns, "main", "Corr.Check_C01",
-                                        {"M": "mismatches", "V": "violations", "NT": "count_nontrivial"})
-    ctx.log("cases=%d mismatches=%s violations=%s nontrivial=%d" % (len(by_id), out["M"][:20], out["V"][:20], sum(out["NT"])))
-    oc = {}
-    for c in by_id.values():
-        oc[c["observation"]["outcome"]] = oc.get(c["observation"]["outcome"], 0) + 1
-    ctx.log("outcomes", oc)
-    return 0
+    return wiring.run_family(ctx, "Corr.Check_C01", wiring.std_scenarios(PROFILES), RULE)
